@@ -159,7 +159,7 @@ Lemma step_nofuel : forall s o e, InvA NH s -> snd (step NH true false s o) = Ou
 Proof.
   intros s o e IA H. pose proof IA as [I Ac]. destruct (acyclic_bounded s Ac) as [rank Rk].
   pose proof (I_wfp NH s (proj1 I)) as W.
-  destruct o as [k d|p key c|p key|p l|p key|p key|n|n|n|n|n|n|n d|n]; unfold step in H;
+  destruct o as [k d|p key c|p key|p l|p key|p key|n|n|n|n|n|n|n d|n|a b]; unfold step in H;
     try (destruct (get s n) as [x|e0] eqn:G; simpl in H; [discriminate | inversion H; subst; rewrite (get_err _ _ _ G); discriminate]; fail).
   - discriminate.
   - destruct (setitem s p key c) eqn:E; simpl in H; [discriminate|]. inversion H; subst. eapply setitem_nofuel; eauto.
@@ -213,6 +213,7 @@ Proof.
       destruct (kind x); simpl in H; try (inversion H; discriminate);
         unfold read_hash in H; rewrite E2 in H; discriminate.
     + inversion H; subst. rewrite (get_err _ _ _ G). discriminate.
+  - discriminate.
 Qed.
 
 Lemma path_ops_total :
